@@ -151,6 +151,72 @@ Theorem C16_data_append : forall name items d d',
   end.
 Proof. exact data_append. Qed.
 
+
+(* M8: the whole of main() on the command line AS TYPED.  For a well-formed option table and a well-formed command line (option
+   occurrences with their arguments and one positional), the hypotheses of M1/M2/M7 are discharged from wf_config: the files are
+   those named by the --config / -c occurrences in order; under the dest of an option only that option's own actions are registered. *)
+Theorem C16_parse_args_eq : forall tbl items,
+  wf_items tbl false items -> count_pos items = 1%nat -> parse_args tbl (argv_of items) = foldR step_item items [].
+Proof. exact parse_args_eq. Qed.
+
+(* scalars: the last occurrence on the command line, else the last `key = s` line of the -c files in order, else the default *)
+Theorem C16_main_scalar : forall fx cfg f items cfg' sec key opts o,
+  wf_config cfg = true -> wf_items (all_actions cfg) false items -> count_pos items = 1%nat ->
+  main fx cfg f (argv_of items) = Ok cfg' ->
+  assoc sec cfg = Some opts -> assoc key opts = Some o -> scalar (o_cls (o_static o)) = true ->
+  exists o', opt_at cfg' sec key = Some o' /\ o_static o' = o_static o /\
+    Ok (o_value o') =
+      match last_opt (occs_for (o_name (o_static o)) items) with
+      | Some (a, args) => v <- occ_result a args ;; value_of_argval v
+      | None =>
+          match last_opt (strings_for key (section_items sec (map (fs_lookup f) (config_names items)))) with
+          | Some s => conv fx (o_cls (o_static o)) s
+          | None => Ok (o_value o)
+          end
+      end.
+Proof. exact main_scalar. Qed.
+
+Theorem C16_main_list : forall fx cfg f items cfg' sec key opts o,
+  wf_config cfg = true -> wf_items (all_actions cfg) false items -> count_pos items = 1%nat ->
+  main fx cfg f (argv_of items) = Ok cfg' ->
+  assoc sec cfg = Some opts -> assoc key opts = Some o -> o_cls (o_static o) = CMulti ->
+  exists o' l0 wss, opt_at cfg' sec key = Some o' /\ o_value o = VList l0 /\
+    Forall2 (fun s ws => shlex_split s = Ok ws)
+            (strings_for key (section_items sec (map (fs_lookup f) (config_names items)))) wss /\
+    o_value o' = VList (l0 ++ concat wss ++ concat (map snd (occs_for (o_name (o_static o)) items))).
+Proof. exact main_list. Qed.
+
+Theorem C16_main_dict : forall fx cfg f items cfg' sec key opts o ek st,
+  wf_config cfg = true -> wf_items (all_actions cfg) false items -> count_pos items = 1%nat ->
+  main fx cfg f (argv_of items) = Ok cfg' ->
+  assoc sec cfg = Some opts -> assoc key opts = Some o -> o_cls (o_static o) = CDict ek st ->
+  exists o' fbs cbs kes, opt_at cfg' sec key = Some o' /\
+    bindings_of opts key (section_items sec (map (fs_lookup f) (config_names items))) = Some fbs /\
+    occs_bindings st (map snd (occs_for (o_name (o_static o)) items)) = Some cbs /\
+    Forall2 (converted ek) (fbs ++ cbs) kes /\
+    o_value o' = VDict (dict_after [] kes).
+Proof. exact main_dict. Qed.
+
+(* M9: list entries as written in a file: words separated by blanks, a word bare (non-empty, no blank/quote/backslash) or between
+   single quotes (no single quote inside), read back as exactly those words -- the [wss] of M2/M8 in closed form *)
+Theorem C16_shlex_roundtrip : forall l, forallb word_ok l = true -> shlex_split (pr_words l) = Ok (map snd l).
+Proof. exact shlex_roundtrip. Qed.
+
+(* M11: a dictionary line as written, `key = k1=v1, k2=v2, ...` (keys without "," "=", values without ",", no blanks at their
+   ends), is read as exactly those bindings -- the [fbs] of M2/M8 in closed form for such lines *)
+Theorem C16_dict_line_roundtrip : forall p r, forallb kv_ok (p :: r) = true -> entry_pairs (pr_dict (p :: r)) = Some (p :: r).
+Proof. exact dict_line_roundtrip. Qed.
+
+Example C16_dict_line_nonvacuous :
+  forallb kv_ok [(lit "up-title", lit "A b"); (lit "next-url", lit "http://h/x?y=1")] = true /\
+  pr_dict [(lit "up-title", lit "A b"); (lit "next-url", lit "http://h/x?y=1")] = lit "up-title=A b, next-url=http://h/x?y=1" /\
+  entry_pairs (lit "a") = None.
+Proof. vm_compute. repeat split; reflexivity. Qed.
+
+(* M10: the decimal spelling of every integer (what %(k)s / %(k)d print) is read back by the Model of int() as that integer *)
+Theorem C16_int_roundtrip : forall z, parse_int (str_of_Z z) = Ok z.
+Proof. exact int_roundtrip. Qed.
+
 (* defaults: no file, no option: every option keeps its declared default *)
 Theorem C16_defaults : forall fx cfg f file, plain file = true -> main fx cfg f [file] = Ok cfg.
 Proof. exact defaults. Qed.
@@ -195,4 +261,27 @@ Example C16_nonvacuous :
   | Ok cfg => get get_fuel cfg (lit "general") (lit "theme") = OutOfFuel
   | _ => False
   end.
+Proof. vm_compute. repeat split; reflexivity. Qed.
+
+(* non-vacuity of M8-M10: a well-formed command line over the shipped table on which main() succeeds and split-level comes
+   from the command line, xml from the last file; a written list with a bare, a quoted and an empty word; a negative integer *)
+Definition ex_items : list item :=
+  [IOcc (lit "-c") (AAppend (lit "config") N1) [lit "a.ini"]; IOcc (lit "--config") (AAppend (lit "config") N1) [lit "b.ini"];
+   IOcc (lit "--no-theme-extras") (AFalse (lit "copy-theme-extras")) []; IPos (lit "doc.tex");
+   IOcc (lit "--split-level") (AStore (lit "split-level") TInt) [lit "5"]; IOcc (lit "--plugins") (AAppend (lit "plugins") NStar) [lit "p"; lit "q"]].
+
+Example C16_main_nonvacuous :
+  wf_config shipped_config = true /\ wf_items (all_actions shipped_config) false ex_items /\ count_pos ex_items = 1%nat /\
+  config_names ex_items = [lit "a.ini"; lit "b.ini"] /\
+  match main true shipped_config ex_fs (argv_of ex_items) with
+  | Ok cfg =>
+      get get_fuel cfg (lit "files") (lit "split-level") = Ok (VInt 5) /\
+      get get_fuel cfg (lit "general") (lit "xml") = Ok (VBool false) /\
+      get get_fuel cfg (lit "files") (lit "log") = Ok (VBool true) /\
+      get get_fuel cfg (lit "general") (lit "plugins") = Ok (VList [lit "p0"; lit "p"; lit "q"])
+  | _ => False
+  end /\
+  forallb word_ok [(false, lit "a"); (true, lit "b c"); (true, [])] = true /\
+  pr_words [(false, lit "a"); (true, lit "b c"); (true, [])] = lit "a 'b c' ''" /\
+  str_of_Z (-1203) = lit "-1203".
 Proof. vm_compute. repeat split; reflexivity. Qed.
